@@ -143,6 +143,11 @@ func ExportPrivateKey(keyPath string, passphrase []byte) ([]byte, error) {
 		return nil, fmt.Errorf("failed to create GCM: %w", err)
 	}
 
+	// A nonce of the wrong length makes gcm.Open panic
+	if len(data.Nonce) != gcm.NonceSize() {
+		return nil, fmt.Errorf("invalid key file: nonce has %d bytes, want %d", len(data.Nonce), gcm.NonceSize())
+	}
+
 	// Decrypt the private key
 	privKeyBytes, err := gcm.Open(nil, data.Nonce, data.PrivKeyEncrypted, nil)
 	if err != nil {
@@ -347,6 +352,11 @@ func (s *FileSystemSigner) loadKeys(passphrase []byte) error {
 	gcm, err := cipher.NewGCM(block)
 	if err != nil {
 		return fmt.Errorf("failed to create GCM: %w", err)
+	}
+
+	// A nonce of the wrong length makes gcm.Open panic
+	if len(data.Nonce) != gcm.NonceSize() {
+		return fmt.Errorf("invalid key file: nonce has %d bytes, want %d", len(data.Nonce), gcm.NonceSize())
 	}
 
 	// Decrypt the private key
